@@ -336,7 +336,10 @@ func cancel(action uint32, key string, payload []byte, want int32) func() {
 	}
 }
 
-var typeNames = []string{"", "call", "reply", "error", "post", "event", "capability", "cancel", "cancelled"}
+var typeNames = map[uint8]string{0: "type-0", 1: "call", 2: "reply", 3: "error", 4: "post", 5: "event", 6: "capability", 7: "cancel", 8: "cancelled", 9: "type-9", 200: "type-200"}
+
+// frameTypes: the eight defined message types and three undefined type bytes.
+var frameTypes = []uint8{1, 2, 3, 4, 5, 6, 7, 8, 0, 9, 200}
 
 // frames: every message type addressed to a method (and a call followed by a
 // second frame with the same id), from an authenticated raw peer.
@@ -358,7 +361,7 @@ func frames() {
 	}
 	// one frame of any of the 8 types, or a call followed by a frame of any
 	// type carrying the same id
-	first := uint8(1 + vrt.ChooseFree(8, "type"))
+	first := frameTypes[vrt.ChooseFree(len(frameTypes), "type")]
 	tg := targets[vrt.ChooseFree(len(targets), "target")]
 	// the object's statistics / tracing modes wrap the caller's channel
 	switch vrt.ChooseFree(3, "object-mode") {
@@ -369,14 +372,16 @@ func frames() {
 		p.Send(net.Call, w.ServiceID, 1, 85, p.NextID(), []byte{1})
 		vrt.Quiesce()
 	}
-	second := uint8(0)
+	second := uint8(255) // 255: no second frame
 	if first == net.Call {
-		second = uint8(vrt.ChooseFree(9, "second-type"))
+		if k := vrt.ChooseFree(len(frameTypes)+1, "second-type"); k > 0 {
+			second = frameTypes[k-1]
+		}
 	}
 	vrt.Explore()
 	id := p.NextID()
 	p.Send(first, w.ServiceID, 1, tg.action, id, tg.payload)
-	if second != 0 {
+	if second != 255 {
 		p.Send(second, w.ServiceID, 1, tg.action, id, tg.payload)
 	}
 	vrt.Quiesce()
@@ -390,19 +395,20 @@ func frames() {
 	}
 	// label: the frame type that is not a call / post (there is at most one)
 	label := typeNames[first]
-	if second != 0 {
+	if second != 255 {
 		label = "call+" + typeNames[second]
 	}
 	odd := typeNames[first]
-	if second != 0 {
+	if second != 255 {
 		odd = typeNames[second]
 	}
+	undefined := first == 0 || first > 8 || (second != 255 && (second == 0 || second > 8))
 	if tg.key != "" {
 		got := w.Root.Calls[tg.key]
 		if got > execs {
 			vrt.Failf("non-call-executes/"+odd, "frames %s addressed to %s ran the method %d times (at most %d allowed)", label, tg.key, got, execs)
 		}
-		if first == net.Call && second == 0 && got != 1 {
+		if first == net.Call && second == 255 && got != 1 {
 			vrt.Failf("call-not-executed", "a single call of %s ran the method %d times", tg.key, got)
 		}
 	}
@@ -434,10 +440,19 @@ func frames() {
 	if first == net.Post && nReply+nErr > 0 {
 		vrt.Failf("post-answered/"+fmt.Sprint(tg.action), "a Post frame to action %d produced %d replies and %d errors carrying its id", tg.action, nReply, nErr)
 	}
-	if calls == 1 && second == 0 && nReply+nErr != 1 {
+	if calls == 1 && second == 255 && nReply+nErr != 1 {
 		vrt.Failf("call-answer-count", "a single call to action %d got %d replies and %d errors", tg.action, nReply, nErr)
 	}
-	// the service is still alive
+	// the service is still alive (a frame with an undefined type byte is a
+	// protocol error: the connection may be closed, so ask on a new one)
+	if undefined {
+		p = w.RawPeer()
+		p.StartDrain()
+		if !p.Authenticate("", "") {
+			vrt.Failf("service-dead-after/"+odd, "a new connection cannot authenticate after frames %s", label)
+			return
+		}
+	}
 	id2 := p.NextID()
 	p.Send(net.Call, w.ServiceID, 1, 100, id2, fx.Int32(1))
 	vrt.Quiesce()
